@@ -324,35 +324,44 @@ def r5_write_arms(ctx):
         return None
     for sid in ('IEA', 'GE', 'SE', 'ISA', 'LX', 'CLM', 'NM1', 'GS', 'ST', 'HL'):
         for lx in (True, False):
-            env = {'seg_id': sid, 'seg_data.get_seg_id()': sid, 'self.check_837_lx': lx, 'self.lx_count': 7}
-            try:
-                res = traces(g, env, key, funcs={'seg_data.get_seg_id': lambda sid=sid: sid})
-            except NotClosedTest as e:
-                raise AnalysisError('X12Writer.Write: a test cannot be decided for segment id %s: %s' % (sid, e))
-            trs = sorted({t for t, _e in res})
             k = 'x12file:X12Writer.Write[%s%s]' % (sid, ', check_837_lx' if lx else '')
-            if len(trs) != 1:
-                yield Ob(k + ' action', False, ctx.floc(f), 'the action is not determined by the segment id: %s' % trs)
-                continue
-            tr = list(trs[0])
-            first_ok = tr[:1] == [('_parse_segment', (('expr', 'seg_data'),))]
-            acts = tr[1:] if first_ok else tr
-            names = [a_[0] for a_ in acts]
-            if not first_ok:
-                ok, msg = False, 'the shared bookkeeping (_parse_segment(seg_data)) does not run first: %s' % names
-            elif sid in want_pop:
-                ok = acts == [('_popToLoop', (want_pop[sid],))]
-                msg = 'a supplied trailer must be regenerated by _popToLoop(%r) and not written: %s' % (want_pop[sid], acts)
-            elif sid == 'ISA':
-                ok = acts == [('_write_isa_segment', (('expr', 'seg_data'),))]
-                msg = 'the ISA must go through _write_isa_segment: %s' % names
-            elif sid == 'LX' and lx:
-                ok = len(acts) == 2 and acts[0][0] == 'seg_data.set' and acts[0][1] == ('01', '7') and acts[1] == ('_write_segment', (('expr', 'seg_data'),))
-                msg = 'LX must get the writer\'s own decimal counter in LX01 and be written once: %s' % (acts,)
-            else:
-                ok = acts == [('_write_segment', (('expr', 'seg_data'),))]
-                msg = 'segment must be written exactly once and unchanged: %s' % (acts,)
-            yield Ob(k + ' action', ok, ctx.floc(f), '' if ok else msg)
+            verdict = None
+            # (a segment whose elements are all empty is a segment like any other: counted and written)
+            for empty in (False, True):
+                seg = A.Model('segment', get_seg_id=lambda sid=sid: sid, is_empty=lambda empty=empty: empty, is_seg_id_valid=lambda: True)
+                env = {'seg_id': sid, 'seg_data': seg, 'self.check_837_lx': lx, 'self.lx_count': 7}
+                try:
+                    res = traces(g, env, key, funcs={'seg_data.get_seg_id': lambda sid=sid: sid})
+                except NotClosedTest as e:
+                    raise AnalysisError('X12Writer.Write: a test cannot be decided for segment id %s: %s' % (sid, e))
+                trs = sorted({t for t, _e in res}, key=repr)
+                if len(trs) != 1:
+                    verdict = (False, 'the action is not determined by the segment id: %s' % trs)
+                    break
+                tr = list(trs[0])
+                first_ok = tr[:1] == [('_parse_segment', (seg,))]
+                acts = tr[1:] if first_ok else tr
+                names = [a_[0] for a_ in acts]
+                if not first_ok:
+                    ok, msg = False, 'the shared bookkeeping (_parse_segment(seg_data)) does not run first: %s' % names
+                elif sid in want_pop:
+                    ok = acts == [('_popToLoop', (want_pop[sid],))]
+                    msg = 'a supplied trailer must be regenerated by _popToLoop(%r) and not written: %s' % (want_pop[sid], acts)
+                elif sid == 'ISA':
+                    ok = acts == [('_write_isa_segment', (seg,))]
+                    msg = 'the ISA must go through _write_isa_segment: %s' % names
+                elif sid == 'LX' and lx:
+                    ok = len(acts) == 2 and acts[0][0] == 'seg_data.set' and acts[0][1] == ('01', '7') and acts[1] == ('_write_segment', (seg,))
+                    msg = 'LX must get the writer\'s own decimal counter in LX01 and be written once: %s' % (names,)
+                else:
+                    ok = acts == [('_write_segment', (seg,))]
+                    msg = 'segment must be written exactly once and unchanged%s: %s' % (' (also when all its elements are empty - it has been counted)' if empty else '', names)
+                if not ok:
+                    verdict = (False, msg)
+                    break
+            if verdict is None:
+                verdict = (True, '')
+            yield Ob(k + ' action', verdict[0], ctx.floc(f), verdict[1])
 
 
 def r6_shared_counters(ctx):
@@ -362,11 +371,125 @@ def r6_shared_counters(ctx):
         yield o
 
 
+def _writer_flat(ctx, qual, extra=()):
+    """`qual` of X12Writer with the writer's own private methods (and the named inherited ones) expanded in place; calls
+    that must stay are the two stream writers and the trailer constructor.  A private method that could not be expanded
+    leaves the closing sequence undecidable: analysis error, not a verdict."""
+    cls = ctx.cls('x12file', 'X12Writer')
+    keep = {'__init__', 'Write', 'Close', '_write_segment', '_write_isa_segment', '_get_trailer_segment', qual.split('.')[-1]}
+    callees = ['X12Writer.' + f.name for f in cls.body if isinstance(f, ast.FunctionDef) and f.name not in keep] + list(extra)
+    if qual != 'X12Writer._popToLoop' and 'X12Writer._popToLoop' not in callees:
+        callees.append('X12Writer._popToLoop')
+    fn, st, expanded = ctx.flatten('x12file', qual, callees)
+    own = {c.split('.')[-1] for c in callees}
+    left = sorted({A.call_target(c)[1] for c in ast.walk(fn) if isinstance(c, ast.Call) and A.call_target(c)[0] == 'self'
+                   and A.call_target(c)[1] in own})
+    if left:
+        raise AnalysisError('%s: the calls of %s could not be followed' % (qual, ', '.join(left)))
+    return fn
+
+
+_TRAILER = {'ISA': 'IEA', 'GS': 'GE', 'ST': 'SE'}
+
+
+def _expect_close(stack, loop_type, counts):
+    """the trailers closing `stack` down to and including the innermost `loop_type` (everything when there is none)"""
+    rest = list(stack)
+    counts = dict(counts)
+    out = []
+    while rest:
+        t, i = rest.pop()
+        if t == 'ISA':
+            out.append(('IEA', counts['self.gs_count'], i))
+            counts['self.gs_count'] = 0
+        elif t == 'GS':
+            out.append(('GE', counts['self.st_count'], i))
+            counts['self.st_count'] = 0
+        elif t == 'ST':
+            out.append(('SE', counts['self.seg_count'] + 1, i))
+            counts['self.seg_count'] = 0
+        if t == loop_type:
+            break
+    return out, tuple(rest), counts
+
+
+def r7_closing_semantics(ctx):
+    """what the writer generates when it closes, decided by constant propagation through _popToLoop with the closing
+    methods expanded in place: for every stack of open envelopes (nothing, ISA, ISA/GS, ISA/GS/ST) and every requested
+    level, exactly the open envelopes from the innermost down to and including the requested one are closed, innermost
+    first, each with its own control number and the count the reader will recompute (segments + the SE itself, sets,
+    groups); the closed envelopes leave the stack and their counters restart."""
+    from ..absint import traces, NotClosedTest
+    fn = _writer_flat(ctx, 'X12Writer._popToLoop')
+    g = ctx.cfg(fn)
+    full = (('ISA', 'i1'), ('GS', 'g1'), ('ST', 's1'))
+    counts = {'self.gs_count': 2, 'self.st_count': 3, 'self.seg_count': 7}
+    bad = []
+    runs = 0
+    for depth in range(4):
+        for lt in ('ISA', 'GS', 'ST'):
+            env = dict(counts)
+            env['self.loops'] = full[:depth]
+            env['loop_type'] = lt
+
+            def key(c):
+                r, m = A.call_target(c)
+                return 'trailer' if m == '_get_trailer_segment' else None
+            try:
+                res = traces(g, env, key)
+            except NotClosedTest as e:
+                raise AnalysisError('X12Writer._popToLoop cannot be decided (stack %s, closing %s): %s' % ([t for t, _ in full[:depth]], lt, e))
+            runs += 1
+            want, rest, cnt = _expect_close(full[:depth], lt, counts)
+            for tr, e_ in res:
+                got = [a_[1] for a_ in tr]
+                fin = dict(e_)
+                diffs = [k for k, v in cnt.items() if fin.get(k) != v]
+                if (got != want or fin.get('self.loops') != rest or diffs) and len(bad) < 3:
+                    bad.append('open %s, closing down to %s: trailers %s, stack left %s%s; expected %s, %s' % (
+                        [t for t, _ in full[:depth]] or 'nothing', lt, got, [t for t, _ in fin.get('self.loops') or ()],
+                        ''.join(', %s = %r' % (k, fin.get(k)) for k in diffs), want, [t for t, _ in rest]))
+    yield Ob('x12file:X12Writer._popToLoop closes exactly the open envelopes down to the requested one, innermost first, with their counts', not bad,
+             ctx.floc(ctx.func('x12file', 'X12Writer._popToLoop')), '' if not bad else bad[0], note='%d combinations' % runs)
+    # Close = close everything
+    try:
+        fnc = _writer_flat(ctx, 'X12Writer.Close')
+    except AnalysisError:
+        # _popToLoop cannot be expanded in place (it returns from inside its loop): Close is then decided through the call -
+        # it asks, once and on every path, for the closing down to the outermost level, which the obligation above decided
+        fnc = ctx.func('x12file', 'X12Writer.Close')
+        try:
+            res = traces(ctx.cfg(fnc), {}, lambda c: 'pop' if A.call_target(c) == ('self', '_popToLoop') else None)
+        except NotClosedTest as e:
+            raise AnalysisError('X12Writer.Close cannot be decided: %s' % e)
+        got = sorted({tuple(a_[1] for a_ in tr) for tr, _e in res})
+        ok = got == [(('ISA',),)]
+        yield Ob('x12file:X12Writer.Close closes every open envelope, innermost first', ok, ctx.floc(fnc), '' if ok else 'Close asks for %s' % (got,))
+        return
+    gc = ctx.cfg(fnc)
+    bad = []
+    for depth in range(4):
+        env = dict(counts)
+        env['self.loops'] = full[:depth]
+        try:
+            res = traces(gc, env, lambda c: 'trailer' if A.call_target(c)[1] == '_get_trailer_segment' else None)
+        except NotClosedTest as e:
+            raise AnalysisError('X12Writer.Close cannot be decided: %s' % e)
+        want, rest, cnt = _expect_close(full[:depth], None, counts)
+        for tr, e_ in res:
+            got = [a_[1] for a_ in tr]
+            if got != want or dict(e_).get('self.loops') != ():
+                bad.append('open %s at Close: trailers %s, expected %s' % ([t for t, _ in full[:depth]] or 'nothing', got, want))
+    yield Ob('x12file:X12Writer.Close closes every open envelope, innermost first', not bad, ctx.floc(ctx.func('x12file', 'X12Writer.Close')),
+             '' if not bad else bad[0])
+
+
 RULES = [
     Rule('C11.R1', 'only the two write helpers touch the stream; both use the writer delimiters + eol', r1_who_writes, floor=4),
     Rule('C11.R2', 'synthesized trailer counts equal what the reader compares with; control number is the loop\'s own', r2_counts, floor=10),
     Rule('C11.R3', 'trailer->header pairing, _close_loop dispatch, _popToLoop order, Close', r3_pairing, floor=4),
     Rule('C11.R4', 'ISA16/ISA11 carry the writer\'s separators before formatting', r4_isa_delims, floor=1),
     Rule('C11.R5', 'every arm of Write regenerates a trailer or writes the segment once after the bookkeeping', r5_write_arms, floor=4),
+    Rule('C11.R7', 'closing sequence of the writer decided by constant propagation (open envelopes x requested level)', r7_closing_semantics, floor=2),
     Rule('C11.R6', 'shared with C04.R1: the counters behind the generated trailers are incremented and reset where the envelope says', r6_shared_counters, floor=37),
 ]
